@@ -399,10 +399,17 @@ class L1Run:
                     # propagation order (i.e. reversed in time) with vel_rev = True, as shooting does
                     for i, x in enumerate(sites_[cut:] if self.spec.rich else sites_):
                         write_xyz_trajectory(tag, np.array([[float(x), 0.0, 0.0]]), np.zeros((1, 3)), ["X"], box, step=i)
+                    aba = False
                     if self.spec.rich:
                         for i, x in enumerate(reversed(sites_[:cut])):
                             write_xyz_trajectory(base + "_B.xyz", np.array([[float(x), 0.0, 0.0]]), np.zeros((1, 3)),
                                                  ["X"], box, step=i)
+                        # every second accepted path comes back to its first file for its last frame
+                        # (file order B..B A..A B): nothing says that a path's files form contiguous blocks
+                        aba = self.accepted_counter % 2 == 0 and len(sites_) - cut >= 2 and cut >= 1
+                        if aba:
+                            write_xyz_trajectory(base + "_B.xyz", np.array([[float(sites_[-1]), 0.0, 0.0]]), np.zeros((1, 3)),
+                                                 ["X"], box, step=cut)
                         for ext in self.state.pstore.keep_traj_fnames if hasattr(self.state.pstore, "keep_traj_fnames") else []:
                             with open(base + ext, "w") as fh:
                                 fh.write(f"aux data of {tag}\n")
@@ -413,6 +420,8 @@ class L1Run:
                         if i < cut:
                             pp.config = (base + "_B.xyz", cut - 1 - i)
                             pp.vel_rev = True
+                        elif aba and i == len(trial.phasepoints) - 1:
+                            pp.config = (base + "_B.xyz", cut)
                         else:
                             pp.config = (tag, i - cut)
                         # energies on every frame (counter % 3 == 1), on some frames only (== 2: none on the
